@@ -1999,6 +1999,24 @@ def C16_returned_value_arity_family():
     return True, f"{n} (outvars, bound subset, returned values) cases handled as the lowering contract requires"
 
 
+def D44_lax_round_ties_away_from_zero():
+    """C16: lax.round (default rounding method: ties away from zero) is rejected or rounds like JAX"""
+    jax, jnp = _jax()
+    x = np.asarray([0.5, 1.5, 2.5, -0.5, -1.5, 0.49, 2.51], np.float32)
+    return _cmp(lambda a: jax.lax.round(a), [(7,)], [x])
+
+
+def D45_dynamic_slice_clamps_the_start():
+    """C16: lax.dynamic_slice clamps a start index that would run past the end, like JAX"""
+    jax, jnp = _jax()
+    x = np.arange(12, dtype=np.float32).reshape(4, 3)
+    for i in (0, 2, 3, 7):
+        ok, why = _cmp(lambda a, k: jax.lax.dynamic_slice(a, (k, 0), (2, 3)), [(4, 3), jax.ShapeDtypeStruct((), np.int32)], [x, np.asarray(i, np.int32)])
+        if not ok:
+            return ok, f"start index {i}: {why}"
+    return True, "agrees with JAX for start indices 0, 2, 3, 7"
+
+
 def _scope_walk(model):
     """(ok, why): every value is defined before it is read, in its own graph or an enclosing one; function bodies read only their inputs"""
     def walk(g, outer, where):
@@ -2135,6 +2153,7 @@ ALL = {
     "C11_type_constraints_family": C11_type_constraints_family, "D42": lambda: C11_type_constraints_family(only_int8=True),
     "D43": D43_nnx_attention_is_causal_not_ignored,
     "C16_returned_value_arity_family": C16_returned_value_arity_family,
+    "D44": D44_lax_round_ties_away_from_zero, "D45": D45_dynamic_slice_clamps_the_start,
     "C13_retrace_family": C13_retrace_family, "D36": D36_jit_helper_keeps_working_after_conversion,
     "C13_rebinding_between_conversions": C13_rebinding_between_conversions,
     "D1": D1_max_nonscalar_side_operand,
